@@ -27,7 +27,7 @@ EXPRS_Q = [
     ("a", ["lit", "a"], "v2"), ("not a", ["not", ["lit", "a"]], "v2"), ("a and b", ["and", ["lit", "a"], ["lit", "b"]], "v2"),
     ("a or b", ["or", ["lit", "a"], ["lit", "b"]], "v2"), ("not a and b", ["and", ["not", ["lit", "a"]], ["lit", "b"]], "auto"),
     ("(a or b) and not ab", ["and", ["or", ["lit", "a"], ["lit", "b"]], ["not", ["lit", "ab"]]], "v2"),
-    ("a*", ["wild", "a*"], "v2"), ("not a*", ["not", ["wild", "a*"]], "auto"), ("?b or p0", ["or", ["wild", "?b"], ["lit", "p0"]], "v2"),
+    ("a*", ["wild", "a*"], "v2"), ("not a*", ["not", ["wild", "a*"]], "auto"), ("?b or p1", ["or", ["wild", "?b"], ["lit", "p1"]], "v2"),
     ("p* and not a", ["and", ["wild", "p*"], ["not", ["lit", "a"]]], "v2"),
     (["a"], ["lit", "a"], "v1"), (["-a"], ["not", ["lit", "a"]], "v1"), (["a,b"], ["or", ["lit", "a"], ["lit", "b"]], "v1"),
     (["a", "~b"], ["and", ["lit", "a"], ["not", ["lit", "b"]]], "auto"), ("~@a @b", ["and", ["not", ["lit", "a"]], ["lit", "b"]], "auto"),
@@ -92,7 +92,7 @@ def jobs(tier, seed):
     shapes = {
         "plain": [F([S(1), S(1)])],
         "rule": [F([S(1), R([S(1)])])],
-        "outline": [F([O(1, [(1, []), (1, [])], tags=["p<x>"]), S(1)])],
+        "outline": [F([O(1, [(1, []), (1, [])], tags=["p<examples.index>"]), S(1)])],      # rows tagged p1 / p2
         "rule-outline": [F([R([O(1, [(2, [])], tags=["p<x>"])])])],
         "outline-untagged": [F([O(1, [(1, []), (1, [])], noptags=True)])],
         "stepless": [F([S(0), S(1), R([S(0)])])],       # scenarios without any step (own or background)
